@@ -19,6 +19,7 @@ from ..index import AnalysisError, call_name, norm, norm1
 from . import c08
 from .c06 import kpoint_action
 from ..index import ClassInfo, FunctionInfo
+from ..sem import Sem
 import re
 from .common import calls, enclosing, fctx, in_body, is_name, method_calls, pfind, pmatch, stmts
 
@@ -139,14 +140,27 @@ def run(ctx) -> None:
              "rule is missing from the grid branch or comes after remote_parameters is built): the integral over the wedge is not the "
              "integral over the zone")
     par = [n for n in ast.walk(runf.node) if isinstance(n, ast.FunctionDef) and n.name == "paralfunc"]
-    tp = norm(par[0]).replace(" ", "") if par else ""
-    r3.check("ifsymmetrize:result=_system.pointgroup.symmetrize(result)" in tp.replace("\n", ""), "the per-K result is symmetrised with the system's point group", runf, par[0] if par else runf.node,
+    oksym = False
+    if par:
+        ppm = fctx(par[0])[2]
+        for c_ in method_calls(par[0], "symmetrize"):
+            st_ = enclosing(ppm, c_, ast.stmt)
+            g_ = enclosing(ppm, c_, ast.If)
+            if norm(c_.func.value).endswith(".pointgroup") and isinstance(st_, ast.Assign) and c_.args and norm(st_.targets[0]) == norm(c_.args[0]) and st_.value is c_ \
+                    and g_ is not None and norm(g_.test) == "symmetrize" and in_body(g_.body, st_):
+                rets_ = [r_ for r_ in ast.walk(par[0]) if isinstance(r_, ast.Return) and r_.value is not None]
+                oksym = bool(rets_) and all(norm(r_.value) == norm(st_.targets[0]) for r_ in rets_)
+    r3.check(oksym, "the per-K result is symmetrised with the system's point group", runf, par[0] if par else runf.node,
              "the per-K function no longer symmetrises its result with _system.pointgroup when asked to", stmt="paralfunc symmetrize")
-    tr = norm(runf.node).replace(" ", "")
-    r3.check("grid.get_K_list(use_symmetry=use_irred_kpt" in tr and "use_symmetry=use_irred_kpt)" in tr and
-             "ifuse_irred_kptandisinstance(grid,Grid):exclude_equiv_points(K_list,new_points=len(K_list)-l1)" in tr.replace("\n", ""),
-             "initial reduction, refinement and merging all follow use_irred_kpt", runf, runf.node,
+    RS7 = Sem(idx, runf)
+    usym = [(c_, k_.value) for c_ in ast.walk(runf.node) if isinstance(c_, ast.Call) for k_ in c_.keywords if k_.arg == "use_symmetry"]
+    okflag = len(usym) >= 2 and all(norm(v_) == "use_irred_kpt" for _, v_ in usym) and any(norm(c_.func).endswith("get_K_list") for c_, _ in usym) \
+        and any(norm(c_.func).endswith("divide") for c_, _ in usym)
+    exc = [c_ for c_ in calls(runf.node, "exclude_equiv_points") if call_name(c_) == "exclude_equiv_points"]
+    okexc = len(exc) == 1 and any(("use_irred_kpt" == t_ or t_.startswith("use_irred_kpt and") or " and use_irred_kpt" in t_) and p_ for t_, p_, _ in RS7.conditions(enclosing(pm, exc[0], ast.stmt), resolve=False))
+    r3.check(okflag and okexc, "initial reduction, refinement and merging all follow use_irred_kpt", runf, (exc[0] if exc else runf.node),
              "the initial K-list, the refinement and the merging of new points do not use the same use_irred_kpt flag", stmt="use_irred_kpt plumbing")
+    tr = norm(runf.node).replace(" ", "")
     r3.check("ifsymmetrize:print('SymmetrizationswitchedoffforPath')symmetrize=False" in tr.replace("\n", ""), "paths are never symmetrised", runf, runf.node,
              "symmetrisation is no longer switched off for paths", stmt="path no symmetrize")
 
